@@ -145,6 +145,7 @@ void Log::ioThread(std::ostream& debug_sink) {
   while (io_thread_running) {
     std::vector<std::string>* q = nullptr;
     size_t numDiscarded;
+    size_t batchSize;
 
     // Swap the rx/tx queues
     {
@@ -158,7 +159,8 @@ void Log::ioThread(std::ostream& debug_sink) {
       io_thread_running = state_.ioThreadRunning;
       numDiscarded = state_.numDiscarded;
 
-      state_.curSize = 0;
+      // The batch stays accounted for until it has been written (see below)
+      batchSize = state_.curSize;
       state_.numDiscarded = 0;
       state_.ioTick++; // flips the last bit that getCurrentQueue uses
     }
@@ -175,6 +177,13 @@ void Log::ioThread(std::ostream& debug_sink) {
 
     // clear() doesn't shrink capacity, only invalidates contents
     q->clear();
+
+    // Only now do the written lines stop counting against maxSize, so that
+    // queued plus in-flight lines never exceed it
+    {
+      std::lock_guard<std::mutex> lock(state_.lock);
+      state_.curSize -= batchSize;
+    }
   }
 }
 
